@@ -116,26 +116,31 @@ func dataMask(t reflect.Type) []bool {
 	return m
 }
 
-// diff compares two boxes byte by byte; bytes inside [lo,hi) that are padding of the focus type are ignored.
-func diff[S any](a, b *box[S], lo, hi uintptr, mask []bool) string {
+// diff compares two boxes byte by byte: the guards around the struct completely, inside the struct every
+// byte that carries data. Padding bytes (between fields, inside nested structs) are not compared: an optic
+// that copies a whole sub-struct (Join does) may legitimately rewrite them, and the statement speaks of fields
+// and of the memory around the struct.
+func diff[S any](a, b *box[S]) string {
 	x, y := raw(a), raw(b)
 	base := unsafe.Offsetof(a.v)
+	size := unsafe.Sizeof(a.v)
+	mask := dataMask(reflect.TypeOf(new(S)).Elem())
 	for i := range x {
 		if x[i] == y[i] {
 			continue
 		}
 		off := uintptr(i)
-		if off >= base+lo && off < base+hi && mask != nil && !mask[off-base-lo] {
+		if off >= base && off < base+size && !mask[off-base] {
 			continue
 		}
 		where := "inside the struct"
 		switch {
 		case off < base:
 			where = "in the memory BEFORE the struct"
-		case off >= base+unsafe.Sizeof(a.v):
+		case off >= base+size:
 			where = "in the memory AFTER the struct"
 		}
-		return fmt.Sprintf("byte at struct offset %d differs %s: lens/optic wrote 0x%02x, the plain assignment gives 0x%02x (focus extent [%d,%d))", int(off)-int(base), where, x[i], y[i], lo, hi)
+		return fmt.Sprintf("byte at struct offset %d differs %s: the optic left 0x%02x, the plain assignment gives 0x%02x", int(off)-int(base), where, x[i], y[i])
 	}
 	return ""
 }
@@ -179,10 +184,6 @@ func MustPanic(c *Ctx, sig, label string, f func()) {
 
 // Lens checks a lens against the selector sel on every ordered pair of values.
 func Lens[S, A any](c *Ctx, label string, lens optics.Lens[S, A], sel func(*S) *A, vals []A, fill func(*S, int)) {
-	var zs S
-	lo := uintptr(unsafe.Pointer(sel(&zs))) - uintptr(unsafe.Pointer(&zs))
-	hi := lo + unsafe.Sizeof(*sel(&zs))
-	mask := dataMask(reflect.TypeOf(new(A)).Elem())
 	for i := range vals {
 		for j := range vals {
 			c.R.Evaluations++
@@ -198,7 +199,7 @@ func Lens[S, A any](c *Ctx, label string, lens optics.Lens[S, A], sel func(*S) *
 				c.Viol("put-return", "%s: Put returned %p, want the struct pointer %p", label, ret, &subj.v)
 				return
 			}
-			if d := diff(subj, twin, lo, hi, mask); d != "" {
+			if d := diff(subj, twin); d != "" {
 				c.Viol("put-bytes", "%s: Put(%v) over %v: %s", label, vals[j], vals[i], d)
 				return
 			}
@@ -208,12 +209,12 @@ func Lens[S, A any](c *Ctx, label string, lens optics.Lens[S, A], sel func(*S) *
 			}
 			// GetPut: putting back what is there changes nothing; PutPut: the second put wins
 			lens.Put(&subj.v, lens.Get(&subj.v))
-			if d := diff(subj, twin, lo, hi, mask); d != "" {
+			if d := diff(subj, twin); d != "" {
 				c.Viol("getput", "%s: Put(Get(s)) changed the struct: %s", label, d)
 				return
 			}
 			lens.Put(lens.Put(&subj.v, vals[i]), vals[j])
-			if d := diff(subj, twin, lo, hi, mask); d != "" {
+			if d := diff(subj, twin); d != "" {
 				c.Viol("putput", "%s: Put(%v) then Put(%v) differs from Put(%v): %s", label, vals[i], vals[j], vals[j], d)
 				return
 			}
@@ -223,10 +224,6 @@ func Lens[S, A any](c *Ctx, label string, lens optics.Lens[S, A], sel func(*S) *
 
 // Reflector checks a reflector against the selector, and that wrong dynamic argument types are refused without any write.
 func Reflector[S, A any](c *Ctx, label string, r optics.Reflector[A], sel func(*S) *A, vals []A, fill func(*S, int)) {
-	var zs S
-	lo := uintptr(unsafe.Pointer(sel(&zs))) - uintptr(unsafe.Pointer(&zs))
-	hi := lo + unsafe.Sizeof(*sel(&zs))
-	mask := dataMask(reflect.TypeOf(new(A)).Elem())
 	for i := range vals {
 		for j := range vals {
 			c.R.Evaluations++
@@ -242,7 +239,7 @@ func Reflector[S, A any](c *Ctx, label string, r optics.Reflector[A], sel func(*
 				c.Viol("putt-return", "%s: Putt returned %v, want the struct pointer", label, ret)
 				return
 			}
-			if d := diff(subj, twin, lo, hi, mask); d != "" {
+			if d := diff(subj, twin); d != "" {
 				c.Viol("putt-bytes", "%s: Putt(%v) over %v: %s", label, vals[j], vals[i], d)
 				return
 			}
@@ -272,7 +269,7 @@ func Reflector[S, A any](c *Ctx, label string, r optics.Reflector[A], sel func(*
 				c.Viol("reflector-arg", "%s: %s(%s) was accepted, it must panic", label, which, name)
 				return
 			}
-			if d := diff(subj, twin, 0, 0, nil); d != "" {
+			if d := diff(subj, twin); d != "" {
 				c.Viol("reflector-arg-write", "%s: %s(%s) panicked but modified memory: %s", label, which, name, d)
 				return
 			}
